@@ -273,6 +273,7 @@ func checkC08(w *World, r *Report) {
 	if sm != nil {
 		w.exportLock(r, "C08.R4", &lockSpec{named: sm, mutex: "mu", guarded: map[string]bool{"data": true}}, w.fnPos(w.Method("safemap", "SafeMap", "Set")))
 	}
+	checkSafeMapLen(w, r, "C08.R4")
 }
 
 // ---------------------------------------------------------------------------
